@@ -241,6 +241,17 @@ def k4(run, tu):
     urets = [n for n in g.nodes if n.kind == 'return' and n.id in under]
     run.ob('K4/python-int-is-masked', F, 'PyLong_Check(ob) && !strict -> return PyLong_AsUnsignedLongLongMask(ob)',
            len(mask) == 1 and urets == mask, tu.where(fn), 'returns reachable for an int with strict == 0: %s' % [stmt_text(n.ast) for n in urets])
+    # every way out with strict == 0 is one of: the masking conversion, the result of the recursive call on the
+    # nb_int result, or the error value -- a value computed here (e.g. a float cast by hand) is not C's modular reduction
+    for r in rets:
+        txt = stmt_text(r.ast)
+        e = cx.strip(cx.kids(r.ast)[0], casts=True) if cx.kids(r.ast) else None
+        okx = 'PyLong_AsUnsignedLongLongMask(' in txt or rules.return_value(r) in ('-1', 'res')
+        if not okx and e is not None and e.get('kind') == 'DeclRefExpr':
+            d = rules.single_def(fn, cx.render(e))
+            okx = d is not None and F in [cx.callee_name(c) for c in cx.calls_in(d)]
+        run.ob('K4/non-strict-exits-are-mask-recursion-or-error', F, txt[:90], okx, tu.where(r.ast),
+               'a result computed outside PyLong_AsUnsignedLongLongMask: out-of-range values are not reduced modulo 2**64 the way C does')
     strict_only = [n for n in g.nodes if n.ast is not None and n.id in live and any(cx.callee_name(c) == 'PyLong_AsUnsignedLongLong' for c in cx.calls_in(n.ast))]
     neg = [n for n in g.nodes if n.ast is not None and n.id in live and 'PyExc_OverflowError' in cx.render(n.ast)]
     run.ob('K4/no-range-error-when-not-strict', F, 'strict == 0: neither PyLong_AsUnsignedLongLong nor the OverflowError exit is reachable',
@@ -295,6 +306,36 @@ def k5(run, tu, F_):
     a = [cx.render(x) for x in cx.call_args(rs[0])]
     run.ob('K5/int-of-signed-cdata-reads-signed', F2, 'read_raw_signed_data(cd->c_data, cd->c_type->ct_size) under SIGNED|FITS_LONG',
            okf and a == ['cd->c_data', 'cd->c_type->ct_size'], tu.where(rs[0]), 'facts %s' % sorted(facts))
+    # K6: int() of a character cdata: 1 byte unsigned, 2 bytes unsigned, 4 bytes signed exactly when wchar_t is signed
+    g3 = cfg_of(tu, F2)
+    sw = [n for n in g3.nodes if n.kind == 'switch' and cx.render(n.ast).endswith('ct_size')]
+    rets = [n for n in g3.nodes if n.kind == 'return' and any(f.startswith("('case',") or 'case' in f for f in g3.fact_texts(n.id)) and
+            any(re.search(r'ct_flags & %d$' % F_['CT_PRIMITIVE_CHAR'], f) and f.startswith('T:') for f in g3.fact_texts(n.id))]
+    seen = {}
+    for r in rets:
+        facts = g3.fact_texts(r.id)
+        size = None
+        for f in facts:
+            mm = re.match(r"^case (\S+):.*ct_size$", f)
+            if mm:
+                size = mm.group(1)
+        signed_w = any(re.search(r'ct_flags & %d$' % F_['CT_IS_SIGNED_WCHAR'], f) and f.startswith('T:') for f in facts)
+        unsigned_w = any(re.search(r'ct_flags & %d$' % F_['CT_IS_SIGNED_WCHAR'], f) and f.startswith('F:') for f in facts)
+        txt = cx.render(cx.kids(r.ast)[0], keep_casts=True)
+        read_t = re.search(r"\*\(?\((\w+) \*\)cd->c_data", txt) or re.search(r"\((unsigned char)\)cd->c_data\[0\]", txt)
+        rt = read_t.group(1) if read_t else None
+        key = (size, 'signed wchar' if signed_w else 'unsigned wchar' if unsigned_w else 'any')
+        seen[key] = rt
+        want = None
+        if size in ('1', 'sizeof(char)'):
+            want = {'unsigned char'}
+        elif size == '2':
+            want = {'cffi_char16_t', 'uint16_t'}
+        elif size == '4':
+            want = {'int32_t', 'int'} if signed_w else {'uint32_t', 'cffi_char32_t', 'unsigned int'} if unsigned_w else set()
+        run.ob('K6/int-of-a-character-reads-with-the-signedness-of-the-type', F2, 'size %s, %s: %s' % (size, key[1], txt[:70]), rt in (want or ()), tu.where(r.ast),
+               'read through %s, expected one of %s (a 4-byte character is signed exactly when CT_IS_SIGNED_WCHAR)' % (rt, sorted(want or [])))
+    run.saw('cdata_int character cases', [str(sorted(seen.items()))])
     return 1
 
 
@@ -311,5 +352,5 @@ def check(run):
     run.assume('decided: which conversion every source kind goes through, that the value is stored by an unsigned narrowing conversion of '
                'the target size, and the non-strict behaviour of the number helper; not decided: CPython\'s PyLong_AsUnsignedLongLongMask / '
                'float.__int__ themselves, nor the character helpers (_my_PyUnicode_AsSingleChar32, _convert_to_char)')
-    for rule, k in (('K1/source-kind-dispatch', 6), ('K1/every-listed-source-kind-has-a-branch', 5), ('K2', 8), ('K3', 10), ('K4', 5), ('K5', 4)):
+    for rule, k in (('K1/source-kind-dispatch', 6), ('K1/every-listed-source-kind-has-a-branch', 5), ('K2', 8), ('K3', 10), ('K4', 5), ('K5', 4), ('K6', 4)):
         run.min_instances(rule, k)
